@@ -2,3 +2,7 @@ import LP.Props.C12
 #print axioms LP.Eval.C12_negate
 #print axioms LP.Eval.C12_root_constraint
 #print axioms LP.Eval.C10_sign_sound
+#print axioms LP.Eval.run_is_union
+#print axioms LP.Eval.sweepAux_mem
+#print axioms LP.Eval.C12_sweep
+#print axioms LP.Eval.cell_exists
